@@ -1147,6 +1147,54 @@ func registerJSON(e *engine) {
 		r := call(m, fr, 0, wf, []value{w.v, out}).(tuple)
 		return r[1]
 	})
+	// Decoder over a *bytes.Buffer / *bytes.Reader-like source exposing Bytes() and Next(n)
+	e.reg("encoding/json.NewDecoder", func(fr *frame, fn *ssa.Function, a []value) value {
+		dt := deref(fn.Signature.Results().At(0).Type())
+		z := zero(dt)
+		z.(structure)[0] = a[0]
+		return &z
+	})
+	e.reg("(*encoding/json.Decoder).Decode", func(fr *frame, fn *ssa.Function, a []value) value {
+		m := fr.m
+		s := structOf(a[0])
+		r := s[0].(iface)
+		bf := m.eng.prog.LookupMethod(r.t, nil, "Bytes")
+		nf := m.eng.prog.LookupMethod(r.t, nil, "Next")
+		if bf == nil || nf == nil {
+			m.unsupported("json.Decoder over a reader without Bytes/Next: " + r.t.String())
+		}
+		data := call(m, fr, 0, bf, []value{r.v}).([]value)
+		target := a[1].(iface)
+		if target.t == nil {
+			return m.mkError("json: Unmarshal(nil)")
+		}
+		pt, ok := target.t.Underlying().(*types.Pointer)
+		if !ok || target.v.(*value) == nil {
+			return m.mkError("json: Unmarshal(non-pointer)")
+		}
+		d := &jsonDec{m: m, fr: fr, b: data}
+		if _, ok := d.peek(); ok && d.pos >= len(d.b) {
+			return m.globalError("io.EOF")
+		}
+		d.dec(target.v.(*value), pt.Elem())
+		call(m, fr, 0, nf, []value{r.v, d.pos})
+		if d.err != "" {
+			return m.mkError(d.err)
+		}
+		return iface{}
+	})
+	e.reg("(*encoding/json.Decoder).UseNumber", func(fr *frame, fn *ssa.Function, a []value) value { return nil })
 	e.reg("(*encoding/json.Encoder).SetEscapeHTML", func(fr *frame, fn *ssa.Function, a []value) value { return nil })
 	e.reg("(*encoding/json.Encoder).SetIndent", func(fr *frame, fn *ssa.Function, a []value) value { return nil })
+}
+
+// globalError returns the value of an external error variable such as io.EOF.
+func (m *machine) globalError(name string) value {
+	i := strings.LastIndex(name, ".")
+	if pkg := m.eng.prog.ImportedPackage(name[:i]); pkg != nil {
+		if g, ok := pkg.Members[name[i+1:]].(*ssa.Global); ok {
+			return *m.globalAddr(g)
+		}
+	}
+	return m.mkError(name)
 }
